@@ -144,11 +144,12 @@ Example T12e_example :
     = [].
 Proof. vm_compute. repeat split; reflexivity. Qed.
 
-(* T12f. nests: the nested logit accepts exactly the nests inside the choice set that do not overlap,
+(* T12f. nests: the nested logit accepts exactly the nests inside the choice set, without a repeated alternative, that do not overlap,
    the cross-nested logit exactly the nests inside the choice set *)
 Theorem T12f_nested_ok_iff : forall ns,
   nested_ok ns = true <->
-  (forall a x, In a (n_alts ns) -> In x a -> In x (n_choice_set ns)) /\ disjoint_nests (n_alts ns).
+  (forall a x, In a (n_alts ns) -> In x a -> In x (n_choice_set ns)) /\
+  (forall a, In a (n_alts ns) -> NoDup a) /\ disjoint_nests (n_alts ns).
 Proof. exact nested_ok_iff. Qed.
 Print Assumptions T12f_nested_ok_iff.
 Theorem T12f_cnl_ok_iff : forall ns,
@@ -158,7 +159,7 @@ Print Assumptions T12f_cnl_ok_iff.
 Example T12f_example :
   nested_ok (mkNests [1; 2; 3] [[1; 2]; [2; 3]]) = false /\ nested_ok (mkNests [1; 2; 3] [[1; 2]; [3; 4]]) = false /\
   cnl_ok (mkNests [1; 2; 3] [[1; 2]; [3; 4]]) = false /\ cnl_ok (mkNests [1; 2; 3] [[1; 2]; [2; 3]]) = true /\
-  nested_ok (mkNests [1; 2; 3] [[1; 2]]) = true.
+  nested_ok (mkNests [1; 2; 3] [[1; 2]]) = true /\ nested_ok (mkNests [1; 2; 3] [[1; 2; 1]]) = false.
 Proof. vm_compute. repeat split; reflexivity. Qed.
 
 (* T12g. data: refused exactly when a column is not numeric, a cell is null, or there is no row *)
@@ -184,6 +185,30 @@ Example T12h_example :
   spec_errors G ex_db (EBin Times (EBeta "x1" false) (EVar "kk")) = [EDuplicate].
 Proof. vm_compute. reflexivity. Qed.
 
+(* T12h'. one draw name declared with two distributions is refused by the IdManager wherever the two declarations
+   sit: in one formula or in two different formulas of the specification (the check, as extracted on this run --
+   gen_draw_scope --, is made against the declarations of ALL the formulas), under any two contexts; and a
+   reported clash is a genuine one *)
+Theorem T12h_draw_type_clash_rejected : forall fs cols f1 f2 C1 C2 n t1 t2,
+  In f1 fs -> In f2 fs -> f1 = plug C1 (EDraws n t1) -> f2 = plug C2 (EDraws n t2) -> t1 <> t2 ->
+  In (EDrawTypes n) (idmanager_errors gen_draw_scope fs cols).
+Proof. exact draw_type_clash_rejected. Qed.
+Print Assumptions T12h_draw_type_clash_rejected.
+Theorem T12h_draw_type_error_sound : forall fs n,
+  In (EDrawTypes n) (draw_type_errors gen_draw_scope fs) ->
+  exists f1 f2 t1 t2, In f1 fs /\ In f2 fs /\ In (n, t1) (draw_decls f1) /\ In (n, t2) (draw_decls f2) /\ t1 <> t2.
+Proof. exact draw_type_error_sound. Qed.
+Print Assumptions T12h_draw_type_error_sound.
+Example T12h_draw_types_example :
+  idmanager_errors gen_draw_scope
+    [EUn MonteCarlo (EBin Times (EVar "x1") (EDraws "xi" "NORMAL")); EVar "kk";
+     EUn MonteCarlo (EUn Exp (EDraws "xi" "UNIFORM"))] ["x1"; "kk"]
+  = [EDrawTypes "xi"; EDrawTypes "xi"] /\
+  idmanager_errors gen_draw_scope
+    [EUn MonteCarlo (EBin Times (EVar "x1") (EDraws "xi" "NORMAL")); EUn MonteCarlo (EUn Exp (EDraws "xi" "NORMAL"))]
+    ["x1"; "kk"] = [].
+Proof. vm_compute. split; reflexivity. Qed.
+
 Theorem T12h_hessian_without_gradient : forall hessian bhhh,
   hessian || bhhh = true -> request_errors false hessian bhhh = [EHessianNoGradient].
 Proof. exact hessian_without_gradient_rejected. Qed.
@@ -202,6 +227,7 @@ Proof. exact audit_reports_only_faults. Qed.
 Print Assumptions T12i_audit_reports_only_faults.
 Theorem T12i_no_false_rejection : forall db e,
   prepare [e] (d_cols db) <> None ->
+  clashing_names (draw_decls e) = [] ->
   placed_ok is_draws is_mc e -> placed_ok is_rv is_integrate e ->
   (d_panel db = true -> placed_ok is_var is_traj e) ->
   faultfree G db e ->
